@@ -84,7 +84,11 @@ def gen_case(world, crng, exact=True):
                 # (DefaultSensor._min_threshold) must not matter to the default sensors
                 tail = crng.choice([[], [], [], [0.5, 1.0], [1.0, 2.0, 1e9], [0.0, 0.0, 0.0]])
                 override = (mdl, qtype, qp, tail)
-            surveys.append((d, name, si, override))
+            # span: number of days the survey takes (mobile deployment: left in progress on the first
+            # span-1 days, completed on day d); span 1 = completes on the day it starts (stationary or mobile)
+            span = crng.choice([1, 1, 1, 2, 2, 3]) if exact else 1
+            span = min(span, d + 1)
+            surveys.append((d, name, si, override, span, crng.random() < 0.5))
     # what simulate() / a worker pool do between programs: deep copy or pickle round trip of the world
     trips = [(crng.randrange(n_days), crng.choice(["deepcopy", "pickle"]))
              for _ in range(crng.choice([0, 0, 0, 1, 2]))]
@@ -100,21 +104,39 @@ def run_case(world, case, case_seed):
     np.random.seed(case_seed % (1 << 31))
     scene = S.Scene(world, case["plan"])
     out = []
+    pending = {}
     for d in range(case["days"]):
         scene.day_start(d)
         for (td, how) in case.get("round_trips", []):
             if td == d:
                 scene.round_trip(how)
-        for (sd, name, si, override) in case["surveys"]:
-            if sd != d:
+        for idx, sv in enumerate(case["surveys"]):
+            (sd, name, si, override) = sv[:4]
+            span = sv[4] if len(sv) > 4 else 1
+            mobile = (sv[5] if len(sv) > 5 else False) or span > 1
+            si = si % len(scene.sites)
+            first = sd - span + 1
+            if not (first <= d <= sd):
                 continue
-            info = None if override is None else S.sensor_info_variant(world, name, *override)
-            mm, code = S.make_method(world, name, info)
-            req, rep, res = S.run_survey(scene, mm, code, si % len(scene.sites), d, crng,
-                                         model=case.get("exact", True))
+            if d == first:
+                info = None if override is None else S.sensor_info_variant(world, name, *override)
+                mm, code = S.make_method(world, name, info, mobile=mobile)
+                pending[idx] = (mm, code, S.new_report(scene, si), [])
+            mm, code, report, partial = pending[idx]
+            if d < sd:
+                # a day on which the survey is left in progress: nothing may be sensed, rolled, tagged
+                rec = S.run_partial(scene, mm, report, si, d)
+                if rec is not None:
+                    partial.append((d, rec))
+                continue
+            req, rep, res = S.run_survey(scene, mm, code, si, d, crng, model=case.get("exact", True), report=report)
             res.scene = scene
             res.override = override
             res.exact = case.get("exact", True)
+            res.partial = partial
+            res.span = span
+            res.mobile = mobile
+            del pending[idx]
             out.append((req, rep, res))
         scene.day_end()
     return out
@@ -139,6 +161,21 @@ def oracle_survey(ctx, res, inp):
         d = dict(inp)
         d["finding"] = extra
         ctx.violate(sig, what, d)
+
+    # days on which this survey was left in progress: the method must not have consulted its sensor, rolled
+    # coverage, written detection records or tagged (what it reports on completion is the completion day's)
+    for (pday, prec) in getattr(res, "partial", []):
+        if not prec.left_in_progress:
+            facts["partial_day_not_in_progress"] = True
+            continue
+        facts["partial_days"] = facts.get("partial_days", 0) + 1
+        if (prec.binomial or prec.detectable or prec.units or prec.tags or prec.tagged or prec.sensor_records
+                or prec.ret is not None or prec.report_state[1] != 0):
+            V("C05:survey:sensor-consulted-while-the-survey-was-left-in-progress",
+              "on a day a multi-day survey was left in progress the method sensed / rolled coverage / recorded / "
+              "tagged, or its report already carries a measured rate",
+              {"day": pday, "coverage_rolls": len(prec.binomial), "sensor_tests": len(prec.units),
+               "detection_records": prec.sensor_records, "tags": prec.tags, "report": list(map(str, prec.report_state))})
 
     if float(res.mdl) != cfg_mdl:
         V("C05:mdl:sensor-uses-another-limit-than-configured",
@@ -489,6 +526,15 @@ def component_stage(ctx):
                     ctx.count("surveys-with:tags")
                 if facts["emitting_flag_mismatch"]:
                     ctx.count("surveys-with:emitting-flag-differs-from-configured-cycle")
+                if facts.get("partial_days"):
+                    ctx.count("surveys-spanning-several-days")
+                    ctx.count("in-progress-days-checked", facts["partial_days"])
+                    if facts["hidden_off"] or facts["hidden_temporal"] or facts["hidden_inactive"]:
+                        ctx.count("surveys-spanning-several-days:with-emissions-hidden-on-the-completion-day")
+                if facts.get("partial_day_not_in_progress"):
+                    ctx.count("skipped:in-progress-day-where-survey_site-did-not-leave-the-survey-in-progress")
+                if getattr(res, "mobile", False):
+                    ctx.count("surveys-by-mobile-deployment")
                 ctx.count("coverage-first-rolls-checked-against-own-probability", facts["first_rolls"])
                 for pr in facts["own_probs"]:
                     ctx.count("surveys-with:own-spatial-probability=%s" % pr)
@@ -860,6 +906,18 @@ def apply_shape(cfg, shape):
     return cfg
 
 
+def find_prev_variant(cfg, seed, wanted):
+    """harness/wholerun.prev_variant with the kind chosen: derived generators are tried until the wanted leaf
+    is the one that differs"""
+    from harness import wholerun as W
+
+    for i in range(400):
+        prev, what = W.prev_variant(cfg, random.Random(seed * 1009 + i))
+        if what == wanted:
+            return prev, what
+    return W.prev_variant(cfg, random.Random(seed))
+
+
 C05_WIDE_TAGS = ["coverage", "followup", "crews", "workday", "weather", "months", "years", "sims"]
 
 
@@ -890,7 +948,25 @@ def wholerun_config(rng, with_fix=False, shape=None, wide=None):
     from harness import wholerun as W
 
     nd = rng.choice([120, 200, 400])
-    if wide:
+    multiday = bool(shape and shape.get("multiday"))
+    if multiday:
+        cfg = W.make_config(rng, n_sims=1, ndays=nd, granular=True)
+        # surveys that span days while what is visible changes from day to day: a site survey longer than the
+        # workday (600 > 8 h), temporal coverage 1/2, an intermittent source, short-lived emissions
+        for m in ("AIR", "OGI", "OGI_FU"):
+            cfg["methods"][m].update({"survey_time": 600, "max_workday": 8, "t_bw_sites": [30.0], "crew_count": 1})
+        cfg["methods"]["AIR"].update({"temporal": 0.5, "surveys_per_year": 12, "mdl": 0.5,
+                                      "months": list(range(1, 13))})
+        for sc in cfg["sources"]:
+            if sc["source"] == "sC":
+                sc.update({"persistent": False, "active": 1, "inactive": 1})
+        cfg["nonrep"]["duration"] = 20
+        cfg["consider_weather"] = False
+        cfg["daylight"] = None
+        for m in cfg["methods"].values():
+            m["consider_daylight"] = False
+        cfg["wide_applied"] = [{"tag": "multiday", "path": ["c05", "multiday"], "value": True}]
+    elif wide:
         # "wide": 1-3 leaves the base generator never varies / boundary values, applied by the shared
         # generator after its unchanged base draws and recorded in cfg["wide_applied"]; the derived programs
         # below copy every leaf of the base methods, so what is materialised is what cfg["methods"] says
@@ -904,8 +980,10 @@ def wholerun_config(rng, with_fix=False, shape=None, wide=None):
     for (m, par, vals) in (("OGI", "spatial", [1.0, 0.5, 0.75]), ("OGI", "temporal", [1.0, 0.5]),
                            ("AIR", "spatial", [1.0, 0.5]), ("OGI_FU", "spatial", [1.0, 0.75])):
         v = rng.choice(vals)
-        if (m, par) not in wl:
+        if (m, par) not in wl and not (multiday and (m, par) == ("AIR", "spatial")):
             base[m][par] = v
+    if multiday:
+        base["AIR"]["temporal"] = 0.5
     methods = {}
     progs = [{"name": "P_none", "methods": []}]
     for tag, patch in (("N", {}), ("Z", {"spatial": 0.0}), ("B", {"mdl": 1e9})):
@@ -965,12 +1043,14 @@ def trace_survey_oracle(events, methods_cfg):
     F = []
     stats = {"surveys": 0, "cov_calls": 0, "sticky_reuse": 0, "tags": 0, "detects": 0, "visible": 0,
              "hidden_spatial": 0, "hidden_off": 0, "hidden_temporal": 0, "detected_units": 0,
-             "undetected_nonzero_units": 0, "surveys_with_visible": 0, "first_rolls": 0}
+             "undetected_nonzero_units": 0, "surveys_with_visible": 0, "first_rolls": 0,
+             "survey_steps": 0, "steps_left_in_progress": 0, "steps_completing": 0}
     stored = {}     # (k, method) -> outcome fixed by the first roll
     pend_cov = {}   # method -> cov entries since its last report
     pend_t = {}     # (method, k) -> temporal outcome
     pend_det = {}   # method -> detect events since its last report
     last_rep = {}   # (day, method, site) -> {"units": {(eqg, comp): (vr, measured)}, "level", "mdl"}
+    reps_open = {}  # (method, site) -> sensor reports since the last survey_site call returned
 
     def add(sig, what, detail):
         if len(F) < 40:
@@ -1119,6 +1199,26 @@ def trace_survey_oracle(events, methods_cfg):
                         "a sensor wrote a detection record for an emission that was not visible in that survey / below the MDL",
                         {"survey": [day, m, site], "detect": dv})
             last_rep[(day, m, site)] = {"units": rep_units, "scale": scale, "mdl": mdl}
+            reps_open.setdefault((m, site), []).append((day, st, sm))
+        elif kind == "c05done":
+            (_, day, m, site, complete, in_progress, dtrue, dmeas) = e
+            reps = reps_open.pop((m, site), [])
+            stats["survey_steps"] += 1
+            if not complete:
+                if in_progress:
+                    stats["steps_left_in_progress"] += 1
+                if reps or dmeas != 0:
+                    add("C05:wholerun:survey:sensor-consulted-while-the-survey-was-left-in-progress",
+                        "a survey step that did not complete the survey consulted the sensor, or the unfinished "
+                        "report already carries a measured rate",
+                        {"step": [day, m, site], "sensor_reports": reps, "report_measured": dmeas})
+            else:
+                stats["steps_completing"] += 1
+                if len(reps) != 1 or reps[0][0] != day or reps[0][1] != dtrue or reps[0][2] != dmeas:
+                    add("C05:wholerun:survey:completed-report-is-not-the-completion-day-reading",
+                        "the report of a completed survey is not exactly the one sensor reading taken on the "
+                        "completion day",
+                        {"step": [day, m, site], "sensor_reports": reps, "report": [dtrue, dmeas]})
         elif kind == "tag":
             (_, day, site, eqg, comp, company, rdelay, n_act) = e
             stats["tags"] += 1
@@ -1194,14 +1294,20 @@ def wholerun_one(args):
         cfg["c05_prior_files"] = files
     else:
         cfg = wholerun_config(random.Random(seed), with_fix, shape, wide)
+    what_differs = None
     try:
-        res = W.run_config(cfg, debug=not pool, processes=2 if pool else 1, trace=True)
+        if shape and shape.get("history"):
+            prev, what_differs = find_prev_variant(cfg, seed, shape["history"])
+            res = W.run_after(prev, cfg, debug=not pool, processes=2 if pool else 1, trace=True)
+        else:
+            res = W.run_config(cfg, debug=not pool, processes=2 if pool else 1, trace=True)
     except BaseException:
         if prior_root:
             shutil.rmtree(prior_root, ignore_errors=True)
         raise
     try:
-        out = {"seed": seed, "with_fix": with_fix, "shape": shape, "wide": wide,
+        out = {"seed": seed, "with_fix": with_fix, "shape": shape, "wide": wide, "what_differs": what_differs,
+               "prev_rc": getattr(res, "prev_rc", None),
                "wide_applied": cfg.get("wide_applied", []), "n_sims": cfg.get("n_sims", 1), "rc": res.rc,
                "log": res.log[-1500:] if res.rc else "", "programs": {}, "small_thr": None}
         if with_fix and with_fix != "prior":
@@ -1402,6 +1508,15 @@ def wholerun_oracle(ctx):
         wides = [[t] for t in C05_WIDE_TAGS] + [["coverage", "followup"], True, True]
     for i, wd in enumerate(wides):
         jobs.append((ctx.rng.randrange(1 << 30), True if (wd is True or "sims" not in wd) else False, None, wd))
+    # surveys that span days while visibility changes (site survey time above the workday, temporal coverage 1/2,
+    # an intermittent source): what a completed survey reports must be the completion day's reading
+    for i in range(ctx.pick(1, 3)):
+        jobs.append((ctx.rng.randrange(1 << 30), False, {"multiday": True}, None))
+    # "history": the configuration is run in a folder in which a variant with ONE defining leaf changed
+    # (harness/wholerun.prev_variant) was run before; every oracle is applied to the second run against ITS cfg
+    hk = ["coverage", "mdl", "period-start", "site-count"]
+    for i in range(ctx.pick(1, 4)):
+        jobs.append((ctx.rng.randrange(1 << 30), False, {"history": hk[(i + ctx.seed) % 4]}, None))
     kinds = sorted(HISTORY_KINDS)
     n_hist = ctx.pick(1, 5)
     # quick: the covered-then-blind history; thorough: that one plus four others chosen by the seed
@@ -1446,6 +1561,10 @@ def wholerun_oracle(ctx):
         inp = {"stage": "wholerun", "seed": out["seed"], "with_fix": out["with_fix"], "shape": out.get("shape"),
                "wide": out.get("wide"), "wide_applied": out.get("wide_applied")}
         ctx.count("wholerun:shape:%s" % json.dumps(out.get("shape"), sort_keys=True))
+        if out.get("what_differs"):
+            ctx.count("history:%s" % out["what_differs"])
+            if out.get("prev_rc"):
+                ctx.count("history:first-run-stopped (second run evaluated)")
         if out.get("wide"):
             ctx.count("wide:runs")
             ctx.count("wide:runs:tags=%s" % ("all" if out["wide"] is True else "+".join(out["wide"])))
@@ -1538,6 +1657,8 @@ def run(ctx):
                 "non-zero units, rate == MDL present, shift < -100, tags); whole-run stage: generated configurations, "
                 "rows of emissions_summary.csv of zero-coverage / MDL-1e9 programs vs baseline")
     core.lean_stage(ctx, MODULE, FILE, drivers=["drv_sensor"])
+    from harness.props import _tie
+    _tie.crew_tie(ctx)  # layer 3: survey_site consults the sensor exactly once, on the completing step (CrewTie.survey_site_sensor)
     if not core.LeanDriver("drv_sensor").available():
         raise core.InfraError("drv_sensor was not built")
     for stage in (coverage_writers_table, component_stage, flag_stage, wholerun_oracle):
